@@ -62,6 +62,10 @@ class Part:
         """index of the first disagreement between what the model printed and what the implementation implies, or None"""
         return core.first_diff(self.expected_model_out(hist, impl_out), model_out, self.cmp)
 
+    def shrink_line(self, line):
+        """optional literal-level shrinking of one op line: -> list of smaller candidate lines"""
+        return []
+
     def safety_is_violation(self, outcome):
         """sanitizer/timeout/crash outcomes of the real code under valid API use count as failing inputs."""
         return True
@@ -260,7 +264,7 @@ def run_check(spec, tier, seed, replay=None):
             if key.startswith("safety:"):
                 return ioc == key.split(":", 1)[1]
             return ioc == "ok" and any(k == key for k, _, _ in safe_oracle(part, c, io))
-        return core.ddmin(h, fails, budget=100 if tier == "quick" else 400)
+        return core.ddmin(h, fails, budget=100 if tier == "quick" else 400, shrink_line=part.shrink_line)
 
     done_keys = set()
     for part, name, h, key, what, idx in all_oracle_fail:
